@@ -776,6 +776,19 @@ def run_actor_property(chk, module, theorems, monitor_pids=None, controllers=Non
     return info, res
 
 
+def responsiveness(chk, actors):
+    """the timing / polling clauses of this property presuppose that its controllers never block for ever: the ranked
+    ask-graph theorem of C09 on the regenerated graph, and any cyclic wait the explored runs hit that involves `actors`"""
+    lean.check_theorems(chk, "Poupool.Properties.C09", ["Poupool.C09.strict_graph_ranked", "Poupool.C09.no_wait_cycle"])
+    try:
+        res = exploration(chk)
+    except Exception:  # noqa: BLE001
+        return
+    for k, f in sorted(res["findings"].items()):
+        if f["property"] == "C09" and f["key"].startswith("deadlock") and any(a in f["key"] for a in actors):
+            chk.violation(f["key"], f"{f['what']}: {', '.join(a for a in actors if a in f['key'])} stop(s) processing requests, so the clauses of this property that rely on its polls can no longer hold", {"kind": "scenario", "scenario": f["scenario"], "step": f["step"]})
+
+
 def timing_theorems(chk, theorems):
     """timed theorems (Properties/Timing.lean over Model/Timed.lean): phases end on time / last / polls keep their period"""
     ok = lean.check_theorems(chk, "Poupool.Properties.Timing", theorems)
